@@ -379,3 +379,38 @@ Proof.
   - vm_compute. tauto.
   - vm_compute. reflexivity.
 Qed.
+
+(* ------------------------------------------------------------------ models half: the primitive clauses in boolean form *)
+Lemma all_same_agree n l : Forall (eq n) l -> match l with [] => true | c :: r => forallb (N.eqb c) r end = true.
+Proof.
+  intros H. destruct H as [|c r <- Hr]; [reflexivity|]. apply forallb_forall. intros x Hx.
+  rewrite Forall_forall in Hr. rewrite (Hr x Hx). apply N.eqb_refl.
+Qed.
+
+(* [attribute-count-mismatch] and [index-out-of-range] of the checker hold of every document of the model *)
+Theorem prim_clauses_run sc : scene_ok sc ->
+  let s := to_summary (run sc) in
+  forallb (fun m => forallb (counts_agree s) (gm_prims m)) (s_meshes s) = true /\
+  forallb (fun m => forallb (indices_in_range s (buf (run sc))) (gm_prims m)) (s_meshes s) = true.
+Proof.
+  intros Hok. cbv zeta. pose proof (prims_carry sc Hok) as H. cbv zeta in H.
+  set (s := to_summary (run sc)) in *.
+  assert (HC : forall gm, In gm (s_meshes s) -> exists p mo, In mo (sc_models sc) /\ gm_prims gm = [p] /\
+             Forall (eq (attr_len (mo_mesh mo))) (attr_counts s p) /\
+             indices_in_range s (buf (run sc)) p = true).
+  { intros gm Hin. destruct (H gm Hin) as (p & mo & ii & Hmo & Ep & Ei & (a & Ha & _ & _ & _ & Hd) & Hat).
+    exists p, mo. split; [exact Hmo|]. split; [exact Ep|].
+    assert (Hc : Forall (eq (attr_len (mo_mesh mo))) (attr_counts s p)).
+    { unfold attr_counts. apply Forall_forall. intros c Hc. apply in_flat_map in Hc. destruct Hc as ((name, ai) & Hin' & Hc).
+      destruct (Hat name ai Hin') as (k & nv & a' & _ & _ & Ha' & _ & _ & Hcount & _).
+      unfold nthN in Hc. cbn [snd] in Hc. rewrite Ha' in Hc. destruct Hc as [<-|[]]. symmetry. exact Hcount. }
+    split; [exact Hc|]. unfold indices_in_range. rewrite Ei. unfold nthN. rewrite Ha, Hd.
+    assert (Hm : mesh_ok (mo_mesh mo)) by (unfold scene_ok in Hok; rewrite Forall_forall in Hok; apply Hok, Hmo).
+    destruct Hm as (_ & _ & _ & Hidx & _).
+    apply forallb_forall. intros e He. apply in_map_iff in He. destruct He as (i & <- & Hi).
+    apply forallb_forall. intros c Hc'. rewrite Forall_forall in Hc. rewrite <- (Hc c Hc'). cbn [nth].
+    rewrite Forall_forall in Hidx. specialize (Hidx i Hi). lia. }
+  split; apply forallb_forall; intros gm Hin; destruct (HC gm Hin) as (p & mo & _ & -> & Hc & Hi); cbn [forallb]; rewrite andb_true_r.
+  - unfold counts_agree. apply (all_same_agree _ _ Hc).
+  - exact Hi.
+Qed.
